@@ -148,6 +148,87 @@ theorem fChainTip_mk (B : List BHdr) (Fl : List Nat) (h : Fl.length ≥ 1) : fCh
   have : Fl.length - 1 < Fl.length := by omega
   simp only [this, ↓reduceIte]
 
+/-! ### structure of `importRun` -/
+
+theorem preChecks_none (F : File) (h : preChecks F = none) :
+    metaOk F = true ∧ F.blocks ≠ [] ∧ F.filters.length = F.blocks.length ∧ F.fstart = F.bstart := by
+  unfold preChecks at h
+  split at h
+  · simp at h
+  rename_i c1
+  split at h
+  · simp at h
+  rename_i c2
+  split at h
+  · simp at h
+  rename_i c3
+  split at h
+  · simp at h
+  rename_i c4
+  split at h
+  · simp at h
+  rename_i c5
+  simp only [Bool.or_eq_true, Bool.not_eq_true', List.isEmpty_iff, not_or, Bool.not_eq_false, ne_eq,
+    decide_eq_true_eq, Decidable.not_not] at c1 c2 c3 c4 c5
+  refine ⟨?_, c1.1.2, c5.symm, c4.symm⟩
+  simp only [metaOk, c1.1.1, c2.1, c2.2, c3.2, c4, c5, Bool.and_eq_true, beq_iff_eq, Bool.not_eq_true',
+    List.isEmpty_eq_false_iff, ne_eq, true_and, and_true]
+  refine ⟨?_, c1.1.2⟩
+  rw [← c3.2]; exact c3.1.symm ▸ rfl
+
+/-- a successful import passed every check -/
+theorem importRun_ok_facts (F : File) (cfg : Cfg) (st : Stores) (h : (importRun F cfg st).1 = none) :
+    preChecks F = none ∧ continuity F st = none ∧ validateBlocks F.blocks cfg.bs = true := by
+  unfold importRun at h
+  simp only at h
+  split at h
+  · simp at h
+  rename_i hp
+  split at h
+  · simp at h
+  rename_i hc
+  split at h
+  · simp at h
+  rename_i hv
+  simp only [Bool.not_eq_true', Bool.not_eq_false] at hv
+  exact ⟨hp, hc, hv⟩
+
+/-- an import stopped by a check before the regions are processed changes nothing -/
+theorem importRun_early (F : File) (cfg : Cfg) (st : Stores)
+    (h : preChecks F ≠ none ∨ continuity F st ≠ none ∨ validateBlocks F.blocks cfg.bs = false) :
+    (importRun F cfg st).2.st = st ∧ (importRun F cfg st).1 ≠ none := by
+  unfold importRun
+  simp only
+  split
+  · exact ⟨rfl, by simp⟩
+  rename_i hp
+  split
+  · exact ⟨rfl, by simp⟩
+  rename_i hc
+  split
+  · exact ⟨rfl, by simp⟩
+  rename_i hv
+  simp only [Bool.not_eq_true', Bool.not_eq_false] at hv
+  rcases h with h | h | h
+  · exact absurd hp h
+  · exact absurd hc h
+  · rw [hv] at h; simp at h
+
+theorem importRun_eq_regions (F : File) (cfg : Cfg) (st : Stores) (b f : Nat)
+    (hp : preChecks F = none) (hc : continuity F st = none) (hv : validateBlocks F.blocks cfg.bs = true)
+    (hb : bChainTip st = some b) (hf : fChainTip st = some f) :
+    importRun F cfg st = processRegions F cfg b f { st := st } := by
+  unfold importRun
+  simp only [hp, hc, hv, hb, hf, Bool.not_true, Bool.false_eq_true, ↓reduceIte]
+
+/-- the file ends at or below both store tips: no region exists -/
+theorem processRegions_none (F : File) (cfg : Cfg) (b f : Nat) (r : Run) (he : endHeight F ≤ min b f) :
+    processRegions F cfg b f r = (none, r) := by
+  unfold processRegions regions
+  have h1 : ¬ (min b f + 1 ≤ min (max b f) (endHeight F)) := by omega
+  have h2 : ¬ (max b f + 1 ≤ endHeight F) := by omega
+  simp only [h1, h2, decide_false, Bool.and_false, Bool.false_eq_true, ↓reduceIte]
+
 /-- what `Import` guarantees for stores `mk B Fl` of equal height `a` -/
 def Post (F : File) (B : List BHdr) (Fl : List Nat) (a : Nat) (res : Option Err × Run) : Prop :=
   (res.1 = none → metaOk F = true ∧ res.2.st = mk (B ++ F.blocks.drop a) (Fl ++ F.filters.drop a)) ∧
@@ -158,51 +239,18 @@ theorem post_early (F : File) (B : List BHdr) (Fl : List Nat) (a : Nat) (e : Err
     Post F B Fl a (some e, { st := mk B Fl, nb := nb, nf := nf }) := by
   refine ⟨fun h => by simp at h, fun _ _ => ⟨0, Or.inl rfl, by simp⟩⟩
 
-/-- `Import` of a file that starts at height 0 into healthy stores of equal height. -/
-theorem importRun_zero (F : File) (cfg : Cfg) (B : List BHdr) (Fl : List Nat) (a : Nat)
-    (hs : F.bstart = 0) (hbs : cfg.bs ≥ 1) (hB : B.length = a) (hF : Fl.length = a) (ha : a ≥ 1) :
-    Post F B Fl a (importRun F cfg (mk B Fl)) := by
-  unfold importRun
-  simp only
-  split
-  · exact post_early ..
-  rename_i c1
-  split
-  · exact post_early ..
-  rename_i c2
-  split
-  · exact post_early ..
-  rename_i c3
-  split
-  · exact post_early ..
-  rename_i c4
-  split
-  · exact post_early ..
-  rename_i c5
-  have hmeta : metaOk F = true := by
-    simp only [Bool.or_eq_true, Bool.not_eq_true', List.isEmpty_iff, not_or, Bool.not_eq_false, ne_eq,
-      decide_eq_true_eq, Decidable.not_not] at c1 c2 c3 c4 c5
-    simp only [metaOk, c1.1.1, c2.1, c2.2, c3.2, c4, c5, Bool.and_eq_true, beq_iff_eq, Bool.not_eq_true',
-      List.isEmpty_eq_false_iff, ne_eq, true_and, and_true]
-    refine ⟨?_, c1.1.2⟩
-    rw [← c3.2]; exact c3.1.symm ▸ rfl
-  have hne : F.blocks ≠ [] := by
-    simp only [Bool.or_eq_true, Bool.not_eq_true', List.isEmpty_iff, not_or] at c1
-    exact c1.1.2
-  have hN : F.filters.length = F.blocks.length := by
-    simp only [ne_eq, Decidable.not_not] at c5; exact c5.symm
+/-- the regions of a file starting at height 0 over level stores: one new-headers region -/
+theorem processRegions_level (F : File) (cfg : Cfg) (B : List BHdr) (Fl : List Nat) (a : Nat)
+    (hs : F.bstart = 0) (hbs : cfg.bs ≥ 1) (hB : B.length = a) (hF : Fl.length = a) (ha : a ≥ 1)
+    (hp : preChecks F = none) :
+    Post F B Fl a (processRegions F cfg (a - 1) (a - 1) { st := mk B Fl }) := by
+  obtain ⟨hmeta, hne, hN, _⟩ := preChecks_none F hp
   have hlen : F.blocks.length ≥ 1 := by
     cases hb : F.blocks with
     | nil => exact absurd hb hne
     | cons x xs => simp
-  split
-  · exact post_early ..
-  split
-  · exact post_early ..
-  rw [bChainTip_mk B Fl (by omega), fChainTip_mk B Fl (by omega)]
-  simp only [hB, hF]
-  unfold regions
-  simp only [Nat.lt_irrefl, ↓reduceIte, gt_iff_lt, ne_eq, not_true_eq_false, decide_false, Bool.false_and,
+  unfold processRegions regions
+  simp only [Nat.lt_irrefl, ↓reduceIte, ne_eq, not_true_eq_false, decide_false, Bool.false_and,
     Bool.false_eq_true, Nat.max_self]
   have hE : endHeight F + 1 = F.blocks.length := by unfold endHeight; omega
   by_cases hn : a - 1 + 1 ≤ endHeight F
@@ -218,6 +266,28 @@ theorem importRun_zero (F : File) (cfg : Cfg) (B : List BHdr) (Fl : List Nat) (a
     refine ⟨fun _ => ⟨hmeta, ?_⟩, fun e he => by simp at he⟩
     rw [List.drop_eq_nil_of_le (by omega), List.drop_eq_nil_of_le (by omega)]
     simp
+
+/-- `Import` of a file that starts at height 0 into healthy stores of equal height. -/
+theorem importRun_zero (F : File) (cfg : Cfg) (B : List BHdr) (Fl : List Nat) (a : Nat)
+    (hs : F.bstart = 0) (hbs : cfg.bs ≥ 1) (hB : B.length = a) (hF : Fl.length = a) (ha : a ≥ 1) :
+    Post F B Fl a (importRun F cfg (mk B Fl)) := by
+  by_cases h : preChecks F = none ∧ continuity F (mk B Fl) = none ∧ validateBlocks F.blocks cfg.bs = true
+  · obtain ⟨hp, hc, hv⟩ := h
+    rw [importRun_eq_regions F cfg (mk B Fl) (a - 1) (a - 1) hp hc hv
+      (by rw [bChainTip_mk B Fl (by omega), hB]) (by rw [fChainTip_mk B Fl (by omega), hF])]
+    exact processRegions_level F cfg B Fl a hs hbs hB hF ha hp
+  · have h' : preChecks F ≠ none ∨ continuity F (mk B Fl) ≠ none ∨ validateBlocks F.blocks cfg.bs = false := by
+      by_cases h1 : preChecks F = none
+      · by_cases h2 : continuity F (mk B Fl) = none
+        · right; right
+          cases hv : validateBlocks F.blocks cfg.bs with
+          | false => rfl
+          | true => exact absurd ⟨h1, h2, hv⟩ h
+        · exact Or.inr (Or.inl h2)
+      · exact Or.inl h1
+    obtain ⟨hst, hne⟩ := importRun_early F cfg (mk B Fl) h'
+    refine ⟨fun hn => absurd hn hne, fun e _ => ⟨0, Or.inl rfl, ?_⟩⟩
+    rw [hst]; simp
 
 theorem usable_mk (B : List BHdr) (Fl : List Nat) (hB : B.length ≥ 1) (hF : Fl.length ≥ 1) :
     usable (obsOf (mk B Fl)) = true := by
@@ -237,54 +307,49 @@ theorem take_length_take {α : Type} (l : List α) (j : Nat) : l.take (l.take j)
   · have h1 : l.take j = l := List.take_of_length_le (by omega)
     rw [h1, List.take_of_length_le (Nat.le_refl _)]
 
+/-- no gap: a file accepted by `validateChainContinuity` starts at or below tip+1 -/
+theorem continuity_no_gap (F : File) (B : List BHdr) (Fl : List Nat) (hB : B.length ≥ 1) (hF : Fl.length ≥ 1)
+    (hc : continuity F (mk B Fl) = none) : F.bstart ≤ min (B.length - 1) (Fl.length - 1) + 1 := by
+  unfold continuity at hc
+  rw [bChainTip_mk B Fl hB, fChainTip_mk B Fl hF] at hc
+  simp only at hc
+  by_cases hg : F.bstart > min (B.length - 1) (Fl.length - 1) + 1
+  · simp only [hg, ↓reduceIte] at hc; exact absurd hc (by simp)
+  · omega
+
+/-- the file ends at or below both store tips (any two heights): nothing is appended -/
+theorem importRun_covered_gen (F : File) (cfg : Cfg) (B : List BHdr) (Fl : List Nat)
+    (hB : B.length ≥ 1) (hF : Fl.length ≥ 1) (he : endHeight F ≤ min (B.length - 1) (Fl.length - 1)) :
+    (importRun F cfg (mk B Fl)).2.st = mk B Fl ∧
+    ((importRun F cfg (mk B Fl)).1 = none ↔
+      (preChecks F = none ∧ continuity F (mk B Fl) = none ∧ validateBlocks F.blocks cfg.bs = true)) := by
+  by_cases h : preChecks F = none ∧ continuity F (mk B Fl) = none ∧ validateBlocks F.blocks cfg.bs = true
+  · obtain ⟨hp, hc, hv⟩ := h
+    rw [importRun_eq_regions F cfg (mk B Fl) _ _ hp hc hv (bChainTip_mk B Fl hB) (fChainTip_mk B Fl hF),
+      processRegions_none F cfg _ _ _ he]
+    exact ⟨rfl, fun _ => ⟨hp, hc, hv⟩, fun _ => rfl⟩
+  · refine ⟨?_, fun hn => absurd (importRun_ok_facts F cfg _ hn) h, fun hh => absurd hh h⟩
+    have h' : preChecks F ≠ none ∨ continuity F (mk B Fl) ≠ none ∨ validateBlocks F.blocks cfg.bs = false := by
+      by_cases h1 : preChecks F = none
+      · by_cases h2 : continuity F (mk B Fl) = none
+        · right; right
+          cases hv : validateBlocks F.blocks cfg.bs with
+          | false => rfl
+          | true => exact absurd ⟨h1, h2, hv⟩ h
+        · exact Or.inr (Or.inl h2)
+      · exact Or.inl h1
+    exact (importRun_early F cfg (mk B Fl) h').1
+
 /-- the file ends at or below both store tips: nothing is appended -/
 theorem importRun_covered (F : File) (cfg : Cfg) (B : List BHdr) (Fl : List Nat) (a : Nat)
     (hB : B.length = a) (hF : Fl.length = a) (ha : a ≥ 1) (he : endHeight F ≤ a - 1) :
     (importRun F cfg (mk B Fl)).2.st = mk B Fl ∧
     ((importRun F cfg (mk B Fl)).1 = none → metaOk F = true ∧ F.bstart ≤ a) := by
-  unfold importRun
-  simp only
-  split
-  · exact ⟨rfl, fun h => by simp at h⟩
-  rename_i c1
-  split
-  · exact ⟨rfl, fun h => by simp at h⟩
-  rename_i c2
-  split
-  · exact ⟨rfl, fun h => by simp at h⟩
-  rename_i c3
-  split
-  · exact ⟨rfl, fun h => by simp at h⟩
-  rename_i c4
-  split
-  · exact ⟨rfl, fun h => by simp at h⟩
-  rename_i c5
-  have hmeta : metaOk F = true := by
-    simp only [Bool.or_eq_true, Bool.not_eq_true', List.isEmpty_iff, not_or, Bool.not_eq_false, ne_eq,
-      decide_eq_true_eq, Decidable.not_not] at c1 c2 c3 c4 c5
-    simp only [metaOk, c1.1.1, c2.1, c2.2, c3.2, c4, c5, Bool.and_eq_true, beq_iff_eq, Bool.not_eq_true',
-      List.isEmpty_eq_false_iff, ne_eq, true_and, and_true]
-    refine ⟨?_, c1.1.2⟩
-    rw [← c3.2]; exact c3.1.symm ▸ rfl
-  split
-  · exact ⟨rfl, fun h => by simp at h⟩
-  rename_i hcont
-  have hgap : F.bstart ≤ a := by
-    unfold continuity at hcont
-    rw [bChainTip_mk B Fl (by omega), fChainTip_mk B Fl (by omega)] at hcont
-    simp only [hB, hF, Nat.min_self] at hcont
-    by_cases hg : F.bstart > a - 1 + 1
-    · simp only [hg, ↓reduceIte] at hcont; exact absurd hcont (by simp)
-    · omega
-  split
-  · exact ⟨rfl, fun h => by simp at h⟩
-  rw [bChainTip_mk B Fl (by omega), fChainTip_mk B Fl (by omega)]
-  simp only [hB, hF]
-  unfold regions
-  simp only [↓reduceIte, ne_eq, not_true_eq_false, decide_false, Bool.false_and,
-    Bool.false_eq_true, Nat.max_self, Nat.lt_irrefl]
-  have hn : ¬ a - 1 + 1 ≤ endHeight F := by omega
-  simp only [hn, decide_false, Bool.false_eq_true, ↓reduceIte]
-  exact ⟨trivial, fun _ => ⟨hmeta, hgap⟩⟩
+  have hg := importRun_covered_gen F cfg B Fl (by omega) (by omega) (by rw [hB, hF, Nat.min_self]; exact he)
+  refine ⟨hg.1, fun hn => ?_⟩
+  obtain ⟨hp, hc, _⟩ := hg.2.mp hn
+  have := continuity_no_gap F B Fl (by omega) (by omega) hc
+  rw [hB, hF, Nat.min_self] at this
+  exact ⟨(preChecks_none F hp).1, by omega⟩
 
 end Neutrino.Import
